@@ -45,6 +45,22 @@ func gen(c *hmain.Ctx) {
 	// would expose: pipedrv/gen.go): every way In() refuses a record before / after the pool hand-out, match / metric
 	// options, shutdown with events in flight (no event goes back twice), batches sealed by byte size
 	pipedrv.GenFamilies(c, 0, pipedrv.CoverageFamilies(16, 8, 6, 20, 6))
+	// directed schedules first built for C02 / C04: the stream time-out injected while a put is already queued (an event
+	// overwritten there is a pooled event that never comes back - seed C05 round 6), the stale unblock
+	var directed []*pipedrv.Job
+	for i := 0; i < 8*c.Scale; i++ {
+		directed = append(directed, &pipedrv.Job{Stream: "timeout-vs-put", Case: pipedrv.TimeoutVsPut(2+2*(i%2), i%4 < 2, i%8 < 4)})
+	}
+	for i := 0; i < c.Scale; i++ {
+		for _, procs := range []int{1, 2} {
+			directed = append(directed, &pipedrv.Job{Stream: "stale-unblock-slow", Case: pipedrv.StaleUnblockT(i%2, procs, 450)})
+		}
+	}
+	pipedrv.RunJobs(directed, 40)
+	for _, j := range directed {
+		pipedrv.Stats(c.W.Count, j)
+		c.W.Case(j.Stream, 0, j.Case, j.Obs, true)
+	}
 	stops := pipedrv.DirectedStops(c.Scale)
 	pipedrv.RunJobs(stops, 40)
 	for _, j := range stops {
